@@ -213,7 +213,7 @@ func runCheck(eng *Engine, args []string, tier string, timeout, par int) int {
 	// 4. verdicts
 	replayDir := filepath.Join(eng.outBase(), "replays", prop)
 	os.RemoveAll(replayDir)
-	nObl, nOK, nVac := 0, 0, 0
+	nObl, nOK, nVac, nVacInc := 0, 0, 0, 0
 	var recs []oblRecord
 	var violations []string
 	var knownHit []string
@@ -224,6 +224,9 @@ func runCheck(eng *Engine, args []string, tier string, timeout, par int) int {
 		rec := oblRecord{Name: o.Name, Kind: o.Kind, Func: o.Func, Reading: o.Mode.String(), Result: o.Result, Solver: o.Solver, Seconds: round3(o.Seconds), Clause: o.Clause}
 		if o.Kind == "vacuity" {
 			nVac++
+			if o.Result != "sat" && o.Result != "unsat" {
+				nVacInc++
+			}
 			if !o.ok() {
 				violations = append(violations, writeReplay(eng, replayDir, prop, o, "vacuous precondition"))
 			}
@@ -310,6 +313,7 @@ func runCheck(eng *Engine, args []string, tier string, timeout, par int) int {
 			"callee_contracts_assumed": ae,
 			"per_obligation":           recs,
 			"vacuity_checks":           nVac,
+			"vacuity_inconclusive":     nVacInc,
 			"undecided":                info.Undecided,
 			"bounded":                  info.Bounded,
 			"depends_on":               info.DependsOn,
